@@ -128,7 +128,21 @@ CLAIMS.update({
           'through Python\'s float.'),
 })
 
+CLAIMS.update({
+ 'C19': dict(engine='Cursor', technique='explicit TLA+ transcription of the edit-log forwarding algebra checked with TLC (design level: all small edit sets x cursors); recorded real sites / refusals / edit logs / forwarded cursors judged in mode V', text=(
+     'spec/Cursor.tla transcribes EditLog.forward (per-block shift accumulation, containing edit -> region / statement / error, '
+     'ancestor rewriting) and states the index discipline of `where` (None = all, 0..k-1 = exactly that site, k and -1 rejected), '
+     'sites + refusals = candidates. MCCursor checks, for every set of <= 2 disjoint edits of a block and every cursor, that the '
+     'forwarded cursor lands on a statement whose ancestry contains the original (a wrong shift rule is rejected). Conformance: programs '
+     'whose statements carry unique literal markers x 8 aimable strategy configurations x every where; the real sites, refusals, outcome, '
+     'edit log, both trees and Function.forward of EVERY old statement cursor are recorded and judged by Cursor!ApplyVerdict; chains '
+     'of two strategies forward end to end.'),
+     note='Statement cursors only (expression cursors of inline / elim_round are not enumerated); blocks <= 6 statements at design level.'),
+})
+
 ENGINES = [
+ ('Cursor', 'spec/Cursor.tla', ['C19'], 'edit-log forwarding algebra and site index discipline'),
+ ('MCCursor', 'spec/MCCursor.tla', ['C19'], 'design-level check of forwarding on all small edit sets'),
  ('Num', 'spec/Num.tla', ['C01', 'C02', 'C05', 'C16', 'C17'], 'exact rational / special-value numbers'),
  ('Rounding', 'spec/Rounding.tla', ['C01', 'C02', 'C10', 'C16', 'C17'], 'context families, core formats, rounding function, expectations'),
  ('MCRounding', 'spec/MCRounding.tla', ['C01'], 'design-level model of RealFloat._round_at'),
